@@ -336,3 +336,25 @@ def run(prog: Program, res: Result, tier: str) -> None:
                         f"{inst}: self.{s} keeps the old identifiers",
                         instance=inst)
     res.need("R-RENAME-ALL", n_flows, 14, "identifier flows")
+    from ..derive import check_container_kinds
+    check_container_kinds(prog, res, only=lambda l: l.startswith("relabel"))
+    # copy=False: the containers rebound on self
+    from ..derive import required_inner_class
+    for K in GRAPH_CLASSES:
+        I = Interp(prog)
+        I.call_method(K, "relabel_atoms", I.input(K, "self"),
+                      [IMM, Const(False)])
+        for ev in I.events:
+            if ev.kind != "rebind":
+                continue
+            need = required_inner_class(prog, K, ev.slot)
+            if need is None:
+                continue
+            inst = f"{SHORT[K]}.relabel_atoms(copy=False) -> {ev.slot} holds {need}"
+            badk = [k for k in ev.vkinds if k not in (need, "<src>")]
+            if badk:
+                res.bad("R-CONTAINER-KIND", f"{ev.func}: {ev.stmt} {badk}",
+                        ev.where, f"{inst}: rebinds {ev.slot} to a container "
+                        f"of {badk}", instance=inst)
+            else:
+                res.ok("R-CONTAINER-KIND", inst, ev.where)
